@@ -1,5 +1,6 @@
 """C04 -- goto only ever jumps forward and outward (spec/LabelScope.tla)."""
 import json
+import zlib
 
 from . import common, flatcheck
 
@@ -40,17 +41,46 @@ def drift(case, obs):
     return out
 
 
+# Layouts: dimensions of the rendering that are no part of the rule (docs/notes-flat.md).  Every emitted case is
+# rendered in ONE of them, chosen by a checksum of the body and the seed (TLC's emission order is not deterministic), so
+# that every layout meets every body shape class:
+#   ret      the functions have a result (`-> i32`, `return: x` as last statement: the END of a body is a label + expression)
+#   pparam   the function has a parameter
+#   comments a comment (holding `goto`, braces) ends every line;  nonl  the file ends without a newline
+#   rename   the labels are named like the variable `x` and like the function `f` (names shared across namespaces)
+LAYOUTS = [
+    {},
+    {"ret": True},
+    {"comments": True, "nonl": True},
+    {"rename": {"a": "x", "b": "f"}},
+    {"ret": True, "pparam": True, "nonl": True},
+    {"rename": {"a": "f", "b": "g1"}, "comments": True},
+    {"pparam": True},
+    {"rename": {"a": "x", "b": "decoy"}, "ret": True, "comments": True, "nonl": True},
+]
+_state = {"seed": 0}
+
+
 def prepare(case):
     # a second function that declares labels of the same names precedes the body (jumps into another function)
     c = dict(case)
     c["decoy"] = ["a", "b"]
+    lay = dict(LAYOUTS[(zlib.crc32(" ".join(case["b"]).encode()) + _state["seed"]) % len(LAYOUTS)])
+    if any(x.endswith("return") for x in case["b"]):
+        # the body has its own `return:`; the layout must not add a second one (nor make `goto return` legal)
+        lay.pop("ret", None)
+    if lay:
+        c["layout"] = lay
     return c
 
 
 CFG = {
     "module": "MC_LabelScope",
     "prepare": prepare,
-    "mc_cfg": {"quick": "MC_LabelScope_quick.cfg", "thorough": "MC_LabelScope_thorough.cfg"},
+    # fns: modules of two (thorough: three) function bodies, every split; ret: bodies that end with `return:` and a
+    # result expression, with `goto return` (the documented idiom) from every place
+    "mc_cfg": {"quick": ["MC_LabelScope_quick.cfg", "MC_LabelScope_fns_quick.cfg", "MC_LabelScope_ret_quick.cfg"],
+               "thorough": ["MC_LabelScope_thorough.cfg", "MC_LabelScope_fns_thorough.cfg", "MC_LabelScope_ret_thorough.cfg"]},
     "workers": 8,
     "compare": compare,
     "drift": drift,
@@ -65,17 +95,26 @@ CFG = {
                  "LabelScope.tla), checks the scoper model against the declarative rule on each, and emits each body; "
                  "every body is rendered and compiled by the real front end and its E400/E420 lines and verdict are "
                  "compared with the rule. Random bodies (<= 40 items, 4 names, depth 5) are recorded with hook events and "
-                 "validated by TLC against the same rule. Non-trivial = distinct bodies containing at least one goto and one label.",
+                 "validated by TLC against the same rule. Dimension audit: modules of two / three function bodies in every split "
+                 "(item F; the rule is applied per body, the scoper model runs through the whole module), bodies that end with "
+                 "`return:` and a result expression with `goto return` from every place, every case rendered in one of 8 layouts "
+                 "(result type, parameter, comments, no final newline, labels named like the variable / a function); every third "
+                 "random run has 1-3 functions, results, nesting up to 9, up to 56 items, other statements between the labels. "
+                 "Non-trivial = distinct bodies containing at least one goto and one label.",
     "assumptions": [
         "the renderer puts one item per line; line <-> item index is checked by projecting the parsed AST back",
         "conditions are `x == x`; jump legality does not depend on the condition",
-        "jumps into other functions: every body is preceded by a function `decoy` that declares labels of all names used; the rule never makes them legal targets",
+        "jumps into other functions: every body is preceded by a function `decoy` that declares labels of all names used; the rule never makes them legal targets; "
+        "in the fns / ret configurations and the audit runs the other function also follows, with gotos of its own",
+        "layouts are no part of the rule: a label `return` appended by the `ret` layout, a comment, a renamed label change no verdict "
+        "(the layout is part of the key of a violation)",
         "TLC's evaluation of the rule R (spec/LabelScope.tla) is the oracle; the algorithm model A only yields MODEL-DRIFT notes",
     ],
 }
 
 
 def run(rep, tier, seed, selftest):
+    _state["seed"] = seed
     return flatcheck.run_flat(rep, tier, seed, selftest or tier == "thorough", CFG)
 
 
